@@ -35,7 +35,12 @@ func main() {
 	c := vf.New("C10", "exploration")
 	logger.SetLogger(zap.NewNop())
 	if vf.IsWorker() {
-		worker(c, vf.WorkerArg())
+		if vf.WorkerArg() == "replay" {
+			c.ReplayIn = os.Getenv("C10_REPLAY")
+			replay(c)
+		} else {
+			worker(c, vf.WorkerArg())
+		}
 		c.Finish()
 	}
 	c.SetRule("a history counts when it contains at least one cache clear and one close/reopen and at least one series was written again after each of them and got its recorded id back; " +
@@ -47,7 +52,14 @@ func main() {
 	c.Assume("queries are judged only after IndexBuilder.Flush (index visibility may lag behind the write by design); id lookups that return 0 before the flush are counted, not judged")
 
 	if c.ReplayIn != "" {
-		replay(c)
+		// in a worker, like every history: a race report inside statistics code must not
+		// end the replay (the worker runs with halt_on_error=0, reports are read afterwards)
+		prefix := filepath.Join(c.Scratch, "race-replay")
+		c.RunWorker("replay", 20*time.Minute, raceEnv(prefix), "C10_REPLAY="+c.ReplayIn)
+		collectRaces(c, prefix, "replay")
+		if c.Violations() == 0 {
+			fmt.Println("REPLAY: the stored case agrees with the oracle now (no violation reproduced)")
+		}
 		c.Finish()
 	}
 
